@@ -4,6 +4,7 @@ import ChemProofs.Drv.Peaks
 import ChemProofs.Drv.Spec
 import ChemProofs.Drv.Formula
 import ChemProofs.Drv.Conv
+import ChemProofs.Drv.Brain
 /- Model driver: `driver <mode>` reads op lines on stdin, prints one observation line per op. -/
 open Chem.Drv
 
@@ -30,6 +31,12 @@ def main (args : List String) : IO UInt32 := do
     return 0
   | ["conv"] => do
     loop (← IO.getStdin) runConvCase
+    return 0
+  | ["brain"] => do
+    loop (← IO.getStdin) runBrainCase
+    return 0
+  | ["brainhist"] => do
+    loop (← IO.getStdin) runBrainHist
     return 0
   | ["peaks"] => do
     loop (← IO.getStdin) runPeaksCase
